@@ -38,6 +38,9 @@ type AsyncResult struct {
 	ExpDiscards    int64
 	Delivered      []int64 // observed at the gated appender
 	Delivered2     []int64 // observed at the second appender (if any)
+	Restricted     []int64 // observed at the reference whose range admits no submitted event (direct mode)
+	HasRestricted  bool
+	RawIDs         map[int64]bool // which submissions were raw writes
 	Counter        int64   // GetDiscardCounter(), -1 if unobservable (Refresh-built logger)
 	Overflows      int     // submissions that met a full buffer
 	BlockWaits     int     // Block submissions that had to wait
@@ -75,7 +78,7 @@ func waitSig(ch chan struct{}, what string, res *AsyncResult) bool {
 
 // RunAsyncHistory executes the history against a real AsyncLogger and the reference model.
 func RunAsyncHistory(setup AsyncSetup, tagName, handleName string, actions []AsyncAction) *AsyncResult {
-	res := &AsyncResult{Counter: -1}
+	res := &AsyncResult{Counter: -1, RawIDs: map[int64]bool{}}
 	ResetRecs()
 	log.Destroy()
 	gate := NewGate()
@@ -123,6 +126,11 @@ func RunAsyncHistory(setup AsyncSetup, tagName, handleName string, actions []Asy
 			_ = s2.Start()
 			refs = append(refs, &log.AppenderRef{Appender: s2, Level: allLevels})
 		}
+		// a reference that admits none of the submitted events (they are INFO): it must see the raw
+		// writes only, with or without a logger-level layout
+		s3 := &RecAppender{AppenderBase: log.AppenderBase{Name: "restricted"}}
+		_ = s3.Start()
+		refs = append(refs, &log.AppenderRef{Appender: s3, Level: log.LevelRange{MinLevel: log.ErrorLevel, MaxLevel: log.MaxLevel}})
 		pol := map[string]log.BufferFullPolicy{"Block": log.BufferFullPolicyBlock, "Discard": log.BufferFullPolicyDiscard, "DiscardOldest": log.BufferFullPolicyDiscardOldest}[setup.Policy]
 		direct = &log.AsyncLogger{
 			LoggerBase:       log.LoggerBase{Name: "direct", Level: log.LevelRange{MinLevel: log.InfoLevel, MaxLevel: log.MaxLevel}},
@@ -189,6 +197,9 @@ func RunAsyncHistory(setup AsyncSetup, tagName, handleName string, actions []Asy
 			return
 		}
 		res.Submitted = append(res.Submitted, id)
+		if kind == "raw" {
+			res.RawIDs[id] = true
+		}
 		switch {
 		case !inflight && len(q) == 0:
 			if !call(do) {
@@ -287,7 +298,11 @@ func RunAsyncHistory(setup AsyncSetup, tagName, handleName string, actions []Asy
 	}
 
 	for i := 0; i < setup.Prefill && res.Hang == ""; i++ {
-		submit("ev")
+		if i%3 == 1 {
+			submit("raw") // the initial occupancy is a mix: what the worker delivers while stepping includes raw writes
+		} else {
+			submit("ev")
+		}
 	}
 	for _, a := range actions {
 		if res.Hang != "" {
@@ -337,6 +352,12 @@ func RunAsyncHistory(setup AsyncSetup, tagName, handleName string, actions []Asy
 	if r := Rec("gate"); r != nil {
 		for _, it := range r.Items() {
 			res.Delivered = append(res.Delivered, it.ID)
+		}
+	}
+	if r := Rec("restricted"); r != nil && !setup.ViaRefresh {
+		res.HasRestricted = true
+		for _, it := range r.Items() {
+			res.Restricted = append(res.Restricted, it.ID)
 		}
 	}
 	if r := Rec("second"); r != nil && setup.Second {
